@@ -230,6 +230,30 @@ Theorem C13_form_text_capped_multipart_chunked :
 Proof. exact C13_capped_multipart_chunked_lemma. Qed.
 Print Assumptions C13_form_text_capped_multipart_chunked.
 
+(* Object reuse: in a sequence of requests (one application object or several
+   with different limits, shared HTTPError instances) every response is the
+   function corr_C13_one of its own request and its application's config. *)
+Theorem C13_response_function_of_request :
+  forall (pre post : list (list Z)) (x : list Z),
+    nth (length pre) (run_seq13 (pre ++ x :: post)) [] = corr_C13_one x.
+Proof. exact C13_seq_lemma. Qed.
+Print Assumptions C13_response_function_of_request.
+
+(* A Request built on a configuration WITHOUT errors_map (RequestConfig's
+   default {}: Request(environ, config={...}) outside an application) never
+   answers with a mapped status: the bare BodySizeError / BodyParsingError
+   escapes — the size limit is still enforced, only the mapping is absent. *)
+Theorem C13_unmapped_errors_escape :
+  forall s buf maxb cl chunked,
+    match request_body_with [] s buf maxb cl chunked with
+    | RStatus _ _ => False
+    | _ => True
+    end
+    /\ (forall s', body_read s buf maxb cl chunked = BTooLarge s' ->
+                   request_body_with [] s buf maxb cl chunked = REscape s').
+Proof. exact C13_unmapped_lemma. Qed.
+Print Assumptions C13_unmapped_errors_escape.
+
 (* the statuses come from the errors_map of the current source *)
 Example C13_status_of_size_error :
   raise_status Gen.errors_map cls_BodySizeError cls_RequestError = Some 413%Z
